@@ -17,7 +17,8 @@ CTYPE = {8: "8", 16: "16", 32: "32", 64: "64"}
 
 def c06_desc(rng, odd, big=False):
     """One flat CAN message (1..8 signals, any order of types, offsets up to 64 bits); `odd` admits widths outside 8/16/32/64;
-    `big`: whole-byte integers only, a random subset of them declared big-endian (signal blocks)."""
+    `big`: no odd widths, a random subset of the signals declared big-endian (signal blocks)."""
+    odd = odd and not big
     # the largest enumerator decides the width: just below, at and just above powers of two, also beyond one byte
     top = rng.choice([2, 3, 5, 9, 17, 200, 255, 256, 256, 257, 300, 512, 512, 65536])
     packed = 1 if top <= 1 else top.bit_length()
@@ -35,7 +36,7 @@ def c06_desc(rng, odd, big=False):
         else:
             w = rng.choice([8, 8, 16, 32, 64]) if not (odd and rng.random() < 0.5) else rng.choice([1, 3, 4, 7, 12, 24, 33])
             t = (rng.choice(["u", "i"]), w)
-        if big:
+        if big and t[0] in ("u", "i"):
             w = rng.choice([8, 16, 16, 32, 32, 64])
             t = (rng.choice(["u", "i", "i"]), w)
         if total + w > 64:
@@ -149,7 +150,7 @@ def reference_word(pieces, vals):
     w = 0
     for p, v in zip(pieces, vals):
         x = v & ((1 << p.bitlength) - 1)
-        if is_big(p):                         # a whole-byte leaf: its bytes in the opposite order
+        if is_big(p) and p.bitlength % 8 == 0:                         # a whole-byte leaf: its bytes in the opposite order
             x = int.from_bytes(x.to_bytes(p.bitlength // 8, "big"), "little")
         w |= x << p.bitstart
     return w
@@ -161,7 +162,7 @@ def run(chk):
     nsch, nval = (48, 30) if quick else (1200, 80)
     broken = chk.proof_obligations(["Corr/CanC.vo"])
     chk.coverage["rule"] = (
-        "one flat CAN message per schema (with up to three sibling messages on the same or another device before and after it, frame ids incl. 0 and 2047): 1-8 signals in any order of types (8/16/32/64-bit integers, f32, f64, an enum whose largest enumerator lies around a power of two up to 65536, exercised with its own enumerators; every fifth schema: whole-byte integers of which a random subset is declared big-endian - tested against the reference packing only, not modelled; in a third of the schemas "
+        "one flat CAN message per schema (with up to three sibling messages on the same or another device before and after it, frame ids incl. 0 and 2047): 1-8 signals in any order of types (8/16/32/64-bit integers, f32, f64, an enum whose largest enumerator lies around a power of two up to 65536, exercised with its own enumerators; every fifth schema: signals of standard widths of which a random subset is declared big-endian (endianness: big), half of these messages with one signal only; in a third of the schemas "
         "also widths outside 8/16/32/64), offsets up to 64 bits; the real generator's C is compiled with gcc -O1 -fno-strict-aliasing against a "
         "generated driver that fills the message struct, calls can_encode_msg and can_decode_msg; frame (id, dlc, data) and decoded members are "
         "compared in Coq with the model; non-trivial = >= 2 signals; distinct = (schema, values)")
@@ -213,13 +214,12 @@ def run(chk):
                     zeros = (0, 1 << 31) if type(p.type) is T.FloatType else ((0, 1 << 63) if type(p.type) is T.DoubleType else ())
                     if q < len(dec) and v in zeros and dec[q] in zeros:
                         dec[q] = v
-                if not any(is_big(p) for p in pieces):
-                    # (big-endian leaves are outside the Coq model of the C code: for them the predicate below, against the reference
-                    # packing, is a test and no theorem speaks about them)
-                    cases.append(cpair(sterm, iterm, clist(cz(v) for v in vals), f"(ORun {cz(fid)} {cz(dlc)} {cz(word)} {clist(cz(v) for v in dec)})"))
-                    meta.append((text, vals))
-                else:
-                    chk.hist("big_endian_messages_tested_only", 1)
+                # (big-endian signals are modelled as the C runtime treats them - CanC/CModel.v c_swap, swap after the shift - so the model
+                # is compared on every message; what the property demands of them is the predicate below)
+                cases.append(cpair(sterm, iterm, clist(cz(v) for v in vals), f"(ORun {cz(fid)} {cz(dlc)} {cz(word)} {clist(cz(v) for v in dec)})"))
+                meta.append((text, vals))
+                if any(is_big(p) for p in pieces):
+                    chk.hist("messages_with_big_endian_signals", 1)
                 chk.count((text, tuple(vals)), nontrivial=len(pieces) >= 2, sample={"schema": text, "values": vals, "frame": [fid, dlc, word], "decoded": dec})
                 # the property's predicate on the implementation
                 f32_off = any(type(p.type) is T.FloatType and p.bitstart != 0 for p in pieces)
